@@ -249,7 +249,7 @@ def aliased_shared(desc):
 
 @st.composite
 def netlist_cases(draw, max_nodes, n_cycles):
-    desc = c03.under_top(draw(netlists(max_nodes=max_nodes, n_regs=(0, 5), n_mems=(0, 1), hierarchy=3, max_w=64, div=True, reg_values=True, ops=netgen.COMB_OPS_BASIC + ['BitSel'],
+    desc = c03.under_top(draw(netlists(max_nodes=max_nodes, n_regs=(0, 5), n_mems=(0, 1), hierarchy=3, max_w=64, div=True, reg_values=True, reg_d_any=True, ops=netgen.COMB_OPS_BASIC + ['BitSel'],
                                        widths=[1, 2, 4, 4, 8, 8, 9, 16, 33, 64])))
     # twin blocks that are emitted under closely related shared module names: the same register with the opposite
     # / another reset value, so that a wrong sharing of module bodies shows at power-up or on reset
